@@ -213,12 +213,18 @@ func propC19(c *ctx) error {
 			ifs.dirErr[pre+faultAt] = true
 		}
 		// ---- matcher
-		matcherKind := r.pick([]string{"suffix", "regexp", "func", "regexp-top", "regexp-dir", "func-depth"})
+		matcherKind := r.pick([]string{"suffix", "regexp", "func", "regexp-top", "regexp-dir", "func-depth", "regexp-literal", "regexp-literal"})
 		match := func(p string) bool { return strings.HasSuffix(p, ".html") }
 		// matchers that look at the START or the DEPTH of the path: they must be given the path relative to the
 		// configured sub-directory — the very string the file is registered under
 		reTop, reDir := regexp.MustCompile(`^[^/]+\.html$`), regexp.MustCompile(`^(a|b|part)/.*\.html$`)
+		// an UNANCHORED pattern without metacharacters accepts every path that CONTAINS it (start, middle or end)
+		reLit := regexp.MustCompile(r.pick([]string{`a/`, `part/`, `index`, `\.html`, `html`, `b`, `/`, `main\.html`, `z\.h`}))
+		modelSuffix := ".html"
 		switch matcherKind {
+		case "regexp-literal":
+			match = func(p string) bool { return reLit.MatchString(p) }
+			modelSuffix = ""
 		case "regexp-top":
 			match = func(p string) bool { return reTop.MatchString(p) }
 		case "regexp-dir":
@@ -244,6 +250,8 @@ func propC19(c *ctx) error {
 				perr = m.ParseWithRegexp(ifs, reTop)
 			case "regexp-dir":
 				perr = m.ParseWithRegexp(ifs, reDir)
+			case "regexp-literal":
+				perr = m.ParseWithRegexp(ifs, reLit)
 			default:
 				perr = m.Parse(ifs, match)
 			}
@@ -367,7 +375,7 @@ func propC19(c *ctx) error {
 				nmatch++
 			}
 		}
-		cs := J{"sub": sub, "files": files, "dirs": dirs, "fault": faultKind, "fault_at": faultAt, "matcher": matcherKind}
+		cs := J{"sub": sub, "files": files, "dirs": dirs, "fault": faultKind, "fault_at": faultAt, "matcher": matcherKind, "literal_pattern": reLit.String()}
 		res.eval(jstr(cs), nmatch >= 2, cs)
 		res.count("fault_" + faultKind)
 		res.count("result_" + orOK(gotErr))
@@ -417,11 +425,11 @@ func propC19(c *ctx) error {
 			// an entry that is skipped in the same way (the model skips directories and non-matching files alike)
 			mentries := append([]fsEntry{}, entries...)
 			for k := range mentries {
-				if !mentries[k].Dir && strings.HasSuffix(mentries[k].Path, ".html") && !match(mentries[k].Path) {
+				if !mentries[k].Dir && strings.HasSuffix(mentries[k].Path, modelSuffix) && !match(mentries[k].Path) {
 					mentries[k].Dir = true
 				}
 			}
-			m2, err := c.d.ask(J{"op": "fsparse", "suffix": ".html", "entries": mentries})
+			m2, err := c.d.ask(J{"op": "fsparse", "suffix": modelSuffix, "entries": mentries})
 			if err != nil {
 				return err
 			}
